@@ -535,7 +535,9 @@ impl EliasFanoCursor<'_> {
             return self.advance_one();
         }
 
-        let target_idx = self.idx + k;
+        // `k` is caller-supplied and unbounded; saturate so a huge skip means
+        // "past the end" instead of overflowing.
+        let target_idx = self.idx.saturating_add(k);
         if target_idx >= self.ef.len {
             self.idx = self.ef.len;
             return None;
